@@ -7,6 +7,8 @@ TASKS = [
   {'id': 'expand_output_buffer', 'properties': ['C11'], 'slices': ['expand_output_buffer'] + HELP, 'harness': 'h_expand', 'enforce': 'k_expand',
    'mutants': [('<= max_length_', '< max_length_', 'expand_output_buffer'), ('std::ios::badbit', 'std::ios::failbit', 'expand_output_buffer')]},
 ]
+TASKS += [{'id': 'has_remaining', 'properties': ['C11'], 'slices': ['has_remaining'], 'harness': 'h_has_remaining', 'enforce': 'k_has_remaining',
+           'mutants': [('c <= (data_length_ - read_pos_)', '(read_pos_ + c) <= data_length_', 'has_remaining'), ('c <= (data_length_ - read_pos_)', 'c < (data_length_ - read_pos_)', 'has_remaining')]}]
 for suf in ['u64', 'i32', 'u8']:
     TASKS += [
      {'id': 'write_object_' + suf, 'properties': ['C11', 'C03'], 'slices': ['write_object'] + HELP, 'harness': 'h_write_object_' + suf, 'small_harness': 'hs_write_object_' + suf, 'replay_task': 'write_object',
